@@ -818,7 +818,9 @@ class RegistryWorld(World):
             "serializer per remote step; 40% of the plans embed a directed motif - id re-use after an object lost it, forced "
             "replacement, forced second id - among random steps) followed by a fixed epilogue (listing, a call to every id ever seen, uriFor + return of every pool "
             "object, a call to every factory-made object); each pool slot holds a plain object or one that is falsy (always-empty "
-            "__len__, __bool__ False, or a __len__ that follows its state); 10% of the plans run on the thread server with "
+            "__len__, __bool__ False, or a __len__ that follows its state); 10% of the plans end with a directed tail (object a loses id X but keeps its marks - "
+            "forced takeover or unregister-by-id + re-registration -, the new holder is registered weakly, a is unregistered by "
+            "object, the holder is collected, then X is listed / called / registered again); another 10% run on the thread server with "
             "line pre-emption (p_line 0.1-0.4, optional stalls) inside Daemon.register & helpers and contain 1-2 'par' steps: "
             "2-3 clients call the dispenser's factory method (register without id, return object or uri) at the same "
             "instant; distinct = distinct plan; non-trivial = a registration was accepted and a remote step ran")
@@ -929,6 +931,30 @@ class RegistryWorld(World):
                            {"op": "reg", "x": ["o", a], "id": rng.choice(LIT_IDS + [None]), "force": False, "weak": False}])
         return seq + [look]
 
+    def _focus_stale_unregister(self, rng, forced):
+        """directed tail: object a loses id X but keeps its marks (forced takeover, or unregister-by-id + re-registration),
+        the new holder b of X is registered WEAKLY, a is unregistered by object (stale), b is collected; then X is looked
+        at: listing, a call, an unforced registration of a third object under it"""
+        a, b, c = rng.sample(range(3), 3)
+        ida, idb = "@o%d" % a, "@o%d" % b
+        seq = [{"op": "reg", "x": ["o", a], "id": rng.choice(LIT_IDS + [None, None]), "force": False, "weak": rng.random() < 0.4}]
+        if forced:
+            seq.append({"op": "reg", "x": ["o", b], "id": ida, "force": True, "weak": True})
+        else:
+            seq.append({"op": "unreg", "by": "id", "id": ida})
+            seq.append({"op": "reg", "x": ["o", b], "id": ida, "force": False, "weak": True})
+        seq.append({"op": "unreg", "by": "obj", "x": ["o", a]})
+        if rng.random() < 0.3:
+            seq.append(rng.choice([{"op": "ret", "k": b, "ser": rng.choice(RET_SERS)}, {"op": "call", "id": idb, "ser": rng.choice(SERIALIZERS)},
+                                   {"op": "uri", "x": ["o", a]}]))
+        seq.append({"op": "gc", "k": b})
+        seq.append({"op": "list", "ser": rng.choice(SERIALIZERS)})
+        seq.append({"op": "call", "id": idb, "ser": rng.choice(SERIALIZERS)})
+        xc = rng.choice([["o", c], ["o", c], ["c", rng.randrange(2)]])
+        seq.append({"op": "reg", "x": xc, "id": idb, "force": False, "weak": False})
+        seq.append({"op": "call", "id": idb, "ser": rng.choice(SERIALIZERS)})
+        return seq
+
     def line_codes(self, plan):
         return _codes() if plan.get("par") and plan["servertype"] == "thread" else ()
 
@@ -945,11 +971,20 @@ class RegistryWorld(World):
         plan = {"servertype": rng.choice(["thread", "multiplex"]), "gtier": gtier, "ops": ops, "sweep": True,
                 "sweep_ser": [rng.choice(RET_SERS) for _ in range(3)],
                 "net": {"p_frag": rng.choice([0.0, 0.0, 0.3])}, "p_block": rng.choice([0.0, 0.0, 0.3])}
+        if rng.random() < 0.10:
+            # focus: a stale unregister(object) next to a weak holder of the same id, then the holder is collected
+            forced = rng.random() < 0.5
+            gtier = plan["gtier"] = "extended" if forced else gtier
+            del ops[:]
+            for _ in range(rng.choice([0, 0, 1, 2])):
+                ops.append(self._op(rng, gtier))
+            ops.extend(self._focus_stale_unregister(rng, forced))
+            plan["focus"] = "stale-unregister-weak-holder"
         shapes = ["plain", "plain", "plain"]
         if rng.random() < 0.5:
             shapes = [rng.choice(["plain", "len0", "bool0", "state"]) for _ in range(3)]
         plan["shapes"] = shapes
-        if rng.random() < 0.10:
+        if "focus" not in plan and rng.random() < 0.11:
             # concurrent factory calls: thread server, line pre-emption inside the registration code
             plan["par"] = True
             plan["servertype"] = "thread"
